@@ -163,6 +163,17 @@ def run_case(c):
             fails[-1]['signature'] = f'OpGraph.from_automaton:returns:{name}'
             return dict(failures=fails, nontrivial=nontrivial, key=key)
         check_graph(fail, 'OpGraph.from_automaton', graph, ref, L, rng)
+        # the terminal nodes of the unrolled graph carry the quantum numbers of the automaton's terminal states
+        # (MPO.from_opgraph derives the bond quantum numbers from the node labels)
+        try:
+            qn = {nid: q for nid, q in aut['nodes']}
+            t0, t1 = aut['term']
+            g0, g1 = graph.nid_terminal
+            got = (graph.nodes[g0].qnum, graph.nodes[g1].qnum)
+            if L >= 1 and (got[0] != qn[t0] or got[1] != qn[t1]):
+                fail('OpGraph.from_automaton', 'terminal_qnums', f'terminal nodes carry quantum numbers {got}, the automaton terminals {(qn[t0], qn[t1])}')
+        except Exception as e:
+            fail('OpGraph.from_automaton', 'terminal_qnums', f'cannot read the terminal nodes: {type(e).__name__}: {e}')
         return dict(failures=fails, nontrivial=nontrivial, key=key)
 
     if kind == 'chain':
